@@ -31,7 +31,7 @@ def shards(tier, seed):
     nmax = 12 if tier == "quick" else 40
     out = []
     for mk in ("affine", "bn_dropout", "paramfree"):
-        for ok in ("tensor", "tuple2", "list3", "named2"):
+        for ok in ("tensor", "tuple2", "list3", "named2", "view2"):
             for lo in range(1, nmax + 1, 10):
                 out.append(dict(name="%s/%s/n%d-%d" % (mk, ok, lo, min(lo + 9, nmax)), model=mk, out=ok,
                                 ns=list(range(lo, min(lo + 9, nmax) + 1)), weight=lo * lo))
@@ -68,6 +68,7 @@ class Probe(torch.nn.Module):
                 self.lin.weight.copy_(torch.randint(-3, 4, (3, 4 * L), generator=g).double())
                 self.lin.bias.copy_(torch.randint(-3, 4, (3,), generator=g).double())
         else:
+            self.register_buffer("pos", torch.arange(3), persistent=False)      # an integer buffer: it does not decide the dtype of X
             self.register_buffer("W", torch.randint(-3, 4, (3, 4 * L), generator=g).double(), persistent=False)
         if kind == "bn_dropout":
             self.bn = torch.nn.BatchNorm1d(3).double()
@@ -97,6 +98,8 @@ class Probe(torch.nn.Module):
             return y
         if self.out == "tuple2":
             return y, (y * 2).unsqueeze(-1)
+        if self.out == "view2":
+            return y, X[:, :, 1:]                    # a view of the input the model was handed (cropped pass-through head)
         if self.out == "named2":
             return Heads(profile=y, counts=(y * 2).unsqueeze(-1))
         return [y, y[:, :1] - 1, y.reshape(-1, 3, 1).repeat(1, 1, 2)]
@@ -175,6 +178,14 @@ def check_one(rec, model0, n, b, nargs, seed, as_tuple=False, layout="contiguous
         if got[k].requires_grad:
             rec.violation("predict:output_requires_grad", dict(case, output=k))
     # forward-call log: eval mode, no grad, aligned consecutive windows covering 0..n-1 in order
+    # the model is handed X in the dtype of its parameters, or - without parameters - exactly as the caller stored it
+    want = str(X.dtype) if model.kind == "paramfree" else "torch.float64"
+    if getattr(model0, "hooked", False):
+        want = None       # the root pre-hook multiplies X (type promotion rules apply)
+    for c in model.log:
+        if want is not None and c["x_dtype"] != want:
+            rec.violation("predict:input_dtype_changed", case, expected=want, observed=c["x_dtype"])
+            break
     seen = []
     for c in model.log:
         if c["training"]:
